@@ -358,6 +358,21 @@ func maskPool() []net.IPMask {
 			}
 		}
 	}
+	// every value of the boundary byte, preceded by ones and followed by zeros
+	for _, n := range []int{4, 16} {
+		for pos := 0; pos < n; pos++ {
+			for b := 1; b < 255; b++ {
+				m := make(net.IPMask, n)
+				for i := 0; i < pos; i++ {
+					m[i] = 0xff
+				}
+				m[pos] = byte(b)
+				if !canonical(m) {
+					out = append(out, m)
+				}
+			}
+		}
+	}
 	out = append(out, net.IPMask{0xff, 0x00, 0xff, 0x00}, net.IPMask{0, 0, 0, 1}, net.IPMask{0xff, 0xff, 0xff}, net.IPMask{0xff, 0xff, 0xff, 0xff, 0xff}, net.IPMask{0x7f, 0xff, 0xff, 0xff},
 		net.IPMask{0xff}, net.IPMask(bytes.Repeat([]byte{0xff}, 20)), net.IPMask(bytes.Repeat([]byte{0x55}, 16)))
 	return out
